@@ -267,7 +267,7 @@ def header_cuts(stream, bounds):
 
 
 def run_shard(ctx: Ctx, acc: Acc):
-    nstreams = ctx.scale(640, 20_000)
+    nstreams = ctx.scale(640, 4_000)
     prof = gv.SMALL
     for i in range(nstreams):
         r = ctx.rng(i)
@@ -297,7 +297,7 @@ def run_shard(ctx: Ctx, acc: Acc):
             for c in range(0, total + 1, stride):
                 parts.append(("partition:single-exhaustive", [c]))
         if total <= 120:
-            lim = 3000 if ctx.thorough else 400
+            lim = 1500 if ctx.thorough else 400
             pairs = list(itertools.combinations(range(0, total + 1), 2))
             if len(pairs) > lim:
                 pairs = r.sample(pairs, lim)
